@@ -157,6 +157,8 @@ struct PolicyOps {
     virtual void
     load_method(int rec, int slot, const std::vector<IdRef>& vp) = 0;
     virtual void unload_method(int slot) = 0;
+    // ~method(), then method() again on the same object (storage not zeroed)
+    virtual void recycle_method(int slot) = 0;
     virtual void load_def(
         int rec, int slot, int body, const std::vector<IdRef>& vp,
         bool with_next) = 0;
